@@ -140,8 +140,9 @@ _LOCKS = {"done": False, "registry": []}
 def isolate_locks():
     """Av._CACHE_LOCK is a multiprocessing.Lock created at import time: forked
     worker processes would all contend on that one cross-process semaphore.
-    Replace every lock of permuta.perm_sets by a process-local SimLock (an
-    ordinary uncontended lock outside a thread simulation)."""
+    Replace every lock of the permuta modules (module globals, class attributes, attributes
+    of module-level objects, lock factories) by a process-local SimLock (an ordinary
+    uncontended lock outside a thread simulation)."""
     if _LOCKS["done"]:
         return _LOCKS["registry"]
     import sys  # pylint: disable=import-outside-toplevel
@@ -150,7 +151,13 @@ def isolate_locks():
     import permuta.perm_sets.permset  # noqa: F401  pylint: disable=import-outside-toplevel,unused-import
     from sim import threadsim  # pylint: disable=import-outside-toplevel
 
-    mods = [m for name, m in sorted(sys.modules.items()) if name.startswith("permuta.perm_sets") and m is not None]
+    import permuta  # noqa: F401  pylint: disable=import-outside-toplevel,unused-import
+    import permuta.bisc  # noqa: F401  pylint: disable=import-outside-toplevel,unused-import
+    import permuta.permutils.pin_words  # noqa: F401  pylint: disable=import-outside-toplevel,unused-import
+
+    # every permuta module: a thread pre-empted while it holds a real lock of, say, a memo in
+    # perm.py would block the simulated threads for real (the simulator would hang)
+    mods = [m for name, m in sorted(sys.modules.items()) if (name == "permuta" or name.startswith("permuta.")) and m is not None]
     _LOCKS["registry"] = threadsim.install_sim_locks(mods)
     _LOCKS["done"] = True
     return _LOCKS["registry"]
